@@ -1,7 +1,7 @@
 """C03 -- each yielded IVP point is a step of the advertised method (src/ivp.rs, src/ivp/rk.rs, adams.rs, bdf.rs)."""
 from vx.unit import Unit
 from vx.extract import Config
-from specs_ivpcommon import cfg, CALLBACK_SPEC, HIST_SPEC, TRACE_SPEC
+from specs_ivpcommon import cfg, CALLBACK_SPEC, HIST_SPEC, TRACE_SPEC, MSTEP_SPEC
 
 RK = "src/ivp/rk.rs"
 
@@ -358,8 +358,12 @@ def adams_solver_unit(prop="C03"):
     u.spec(CALLBACK_SPEC)
     u.spec(ADAMS_SPEC)
     u.spec(HIST_SPEC)
+    u.spec(TRACE_SPEC)
+    u.spec(MSTEP_SPEC)
     G = "<D: Dimension, const O: usize, T: Clone, F: FnMut(R, &[R], &mut T) -> Result<V, UserError>>"
     u.spec("impl" + G + r""" AdamsSolver<D, O, T, F> {
+    // the time of the last point handed to the iterator
+    pub open spec fn yc(&self) -> real { yclock(O as int, self.dt@, self.yield_memory as int, self.time@, self.pv()) }
     pub open spec fn setup_ok(&self) -> bool {
         &&& 3 <= O <= 64 && self.predictor_coefficients@.len() == O && self.corrector_coefficients@.len() == O
         &&& self.one_tenth@ == 1real / 10real && self.one_sixth@ == 1real / 6real && self.half@ == 1real / 2real && self.two@ == 2real && self.four@ == 4real
@@ -489,7 +493,12 @@ def adams_solver_unit(prop="C03"):
           "(old(self).yield_memory == 0 || old(self).yield_memory == O) && old(self).time@ < old(self).end@ && old(self).time@ + old(self).dt@ >= old(self).end@ "
           "==> !(old(self).yield_memory == O && old(self).pv().len() == O - 1)",
           # C01: ordered, inside the interval, gap-bounded (for the points produced by this call)
-          "(old(self).yield_memory == 0 || old(self).yield_memory == O) && res is Ok ==> old(self).time@ < res->Ok_0.0@ <= old(self).end@ && res->Ok_0.0@ - old(self).time@ <= old(self).dt_max@")
+          "(old(self).yield_memory == 0 || old(self).yield_memory == O) && res is Ok ==> old(self).time@ < res->Ok_0.0@ <= old(self).end@ && res->Ok_0.0@ - old(self).time@ <= old(self).dt_max@",
+          # C01, all regimes: what the call did to (dt, yield_memory, time, history), case by case.  lemma_mclock (specs/ivpcommon.py) derives from
+          # this summary and the history invariant that the YIELD CLOCK (time of the last point handed out) obeys the clock contract of
+          # lemma_reaches_end, that every yielded point is the new clock value, and that it lies within dt_max of the previous one
+          "mtrans(O as int, old(self).dt@, old(self).yield_memory as int, old(self).time@, old(self).end@, old(self).pv(), "
+          "final(self).dt@, final(self).yield_memory as int, final(self).time@, final(self).pv(), res)")
     def A(x):
         return (f"O as int, true, {x}.dt@, {x}.dt_max@, {x}.yield_memory as int, {x}.time@, {x}.end@, {x}.pv(), {x}.pd(), {x}.save_state@.len(), {x}.state@, {x}.implicit_derivs@")
     g.hint("begin", "let ghost s0 = *self; proof { lemma_hist_basic(" + A("s0") + "); if !(s0.time@ >= s0.end@ && (s0.yield_memory == 0 || s0.yield_memory == O)) { lemma_hist_use(" + A("s0") + "); } }")
@@ -659,6 +668,8 @@ def bdf_solver_unit(prop="C03"):
     u.spec(CALLBACK_SPEC)
     u.spec(ADAMS_SPEC)
     u.spec(HIST_SPEC)
+    u.spec(TRACE_SPEC)
+    u.spec(MSTEP_SPEC)
     u.spec(BDF_SPEC)
     G = "<D: Dimension, const O: usize, T: Clone, F: FnMut(R, &[R], &mut T) -> Result<V, UserError>>"
     u.spec("impl" + G + r""" BDFSolver<D, O, T, F> {
@@ -843,7 +854,10 @@ pub open spec fn fd_of(m: int, gf: spec_fn(real, Seq<real>) -> Seq<real>, tt: re
            "res is Err && res->Err_0 is Done ==> !(old(self).yield_memory == O + 1 && old(self).pv().len() == O)",
            "(old(self).yield_memory == 0 || old(self).yield_memory == O + 1) && old(self).time@ < old(self).end@ && old(self).time@ + old(self).dt@ >= old(self).end@ "
            "==> !(old(self).yield_memory == O + 1 && old(self).pv().len() == O)",
-           "(old(self).yield_memory == 0 || old(self).yield_memory == O + 1) && res is Ok ==> old(self).time@ < res->Ok_0.0@ <= old(self).end@ && res->Ok_0.0@ - old(self).time@ <= old(self).dt_max@")
+           "(old(self).yield_memory == 0 || old(self).yield_memory == O + 1) && res is Ok ==> old(self).time@ < res->Ok_0.0@ <= old(self).end@ && res->Ok_0.0@ - old(self).time@ <= old(self).dt_max@",
+           # C01, all regimes: the transition summary that lemma_mclock (yield clock, specs/ivpcommon.py) is stated over; o = O + 1
+           "mtrans(O as int + 1, old(self).dt@, old(self).yield_memory as int, old(self).time@, old(self).end@, old(self).pv(), "
+           "final(self).dt@, final(self).yield_memory as int, final(self).time@, final(self).pv(), res)")
     st.hint("begin", "let ghost s0 = *self; proof { lemma_hist_basic(" + AB("s0") + "); if !(s0.time@ >= s0.end@ && (s0.yield_memory == 0 || s0.yield_memory == O + 1)) { lemma_hist_use(" + AB("s0") + "); } }")
     st.hint("before: return Ok(self.prev_values[get_item]", "proof { lemma_hist_yield(O as int + 1, false, s0.dt@, s0.dt_max@, s0.yield_memory as int, self.yield_memory as int, s0.time@, s0.end@, s0.pv(), s0.pdb(), s0.save_state@.len(), s0.state@, s0.state@); }")
     st.hint("before: #1 return Ok((self.time.real(), self.state.clone()));", """proof {
